@@ -159,6 +159,8 @@ frg::expected<format_error> printf_format(A agent, const char *s, va_struct *vsp
 		}else{
 			int w = 0;
 			while(*s >= '0' && *s <= '9') {
+				// Stop through the assertion hook instead of overflowing the int.
+				FRG_ASSERT(w <= (INT_MAX - (*s - '0')) / 10);
 				w = w * 10 + (*s - '0');
 				++s;
 				FRG_ASSERT(*s);
@@ -181,6 +183,7 @@ frg::expected<format_error> printf_format(A agent, const char *s, va_struct *vsp
 				int value = 0;
 				// If no integer follows the '.', then precision is taken to be zero
 				while(*s >= '0' && *s <= '9') {
+					FRG_ASSERT(value <= (INT_MAX - (*s - '0')) / 10);
 					value = value * 10 + (*s - '0');
 					++s;
 					FRG_ASSERT(*s);
